@@ -276,7 +276,16 @@ class RZILTransformer(Transformer):
             return self.add_op(
                 Assignment("set_return_val", AssignmentType.ASSIGN, ret_val, src)
             )
-        return items  # Pass them upwards
+        if len(items) == 1 and isinstance(items[0], Effect):
+            return items  # jump / nop. Pass them upwards
+        raise NotImplementedError(f"Jump statement '{items[0]}' is not supported.")
+
+    def expr(self, items):
+        # The only alternative of this rule which is not inlined is the comma expression.
+        raise NotImplementedError("Comma expressions are not supported.")
+
+    def labeled_stmt(self, items):
+        raise NotImplementedError("Labeled statements are not supported.")
 
     def relational_expr(self, items):
         self.ext.set_token_meta_data("relational_expr")
